@@ -1,5 +1,9 @@
 """C10 — smart order routing (decision tables; the reconciliation part is covered by the engine model)."""
+import random
+
 import core
+import engcorr
+import engoracles
 import jesse_env
 import purecorr
 from core import wire, fr
@@ -42,12 +46,16 @@ class C10(core.Check):
                 'jesse/services/broker.py:Broker.sell_at', 'jesse/services/broker.py:Broker.start_profit_at',
                 'jesse/services/broker.py:Broker.reduce_position_at', 'jesse/helpers.py:is_price_near',
                 'jesse/helpers.py:opposite_side', 'jesse/helpers.py:type_to_side']
-    rule = ('translator cross-check: the real Strategy._submit_buy/sell_orders (on a real Strategy object with a recording '
+    rule = ('engine: whole sessions whose scripts re-declare entries and exits in go_long/go_short, on_open_position, '
+            'update_position, on_reduced_position and liquidate() on the real engine and the Lean engine model (identical '
+            'traces); reconciliation oracle on real sessions after every strategy step (active exit orders = distinct rows of '
+            'the latest declaration, none after close, entries cancelled iff should_cancel_entry, routing of every submission); '
+            'translator cross-check: the real Strategy._submit_buy/sell_orders (on a real Strategy object with a recording '
             'broker) and the real Broker methods (with a recording exchange API) vs the generated definitions, on prices at, '
             'inside, on and just outside the 0.015 % band and far away, positive/negative/zero quantities, long/short/closed '
             'positions; oracle: the routing table of C10 evaluated on the real composition strategy -> broker -> api; '
             'non-trivial = an order was produced; distinct = distinct (request, reply)')
-    assumptions = ['the reconciliation clauses of C10 (exit orders match the latest declaration, no exit after close, entry cancel iff) are decided on engine sessions']
+    assumptions = []
 
     def price_points(self, cur):
         r = self.rng
@@ -138,6 +146,99 @@ class C10(core.Check):
                               'Broker.start_profit_at'))
             batch.append(('is_price_near', [wire(p), wire(cur)], (lambda p=p, cur=cur: __import__('jesse.helpers').helpers.is_price_near(p, cur)), 'is_price_near'))
         purecorr.cross_check(res, batch)
+        self.engine_correspondence(res, boost)
+
+    # ------------------------------------------------------------------ engine level
+    def engine_sessions(self, n, rng):
+        return [engcorr.gen_session(rng, max_n=120, rich=True, tight=rng.random() < 0.4, vol=rng.choice([4, 8]),
+                                    lengths=[30, 60, 120]) for _ in range(n)]
+
+    def engine_correspondence(self, res, boost):
+        rng = random.Random(self.seed * 7919 + 10)
+        engcorr.compare_sessions(res, self.engine_sessions(self.budget(40, 700, boost), rng))
+
+    def engine_oracle(self, res, boost):
+        """real sessions: after every strategy step with an open position every active stop-loss / take-profit order
+        corresponds to a distinct row of the latest declaration; none remains once the position is closed; resting
+        entries are all cancelled exactly when should_cancel_entry() answers yes; every submission obeys the routing
+        table with respect to the current price at that moment"""
+        from jesse.store import store
+        rng = random.Random(self.seed * 104729 + 10)
+        thr = 0.00015
+        for sess in self.engine_sessions(self.budget(60, 1200, boost), rng):
+            cands = engcorr.candles_of(sess)
+            problems = []
+            state = {}
+
+            def observer(strategy, hook, order=None):
+                if problems:
+                    return
+                key = f'{strategy.exchange}-{strategy.symbol}'
+                if hook == 'before':
+                    state[key] = {'active_before': [o for o in store.orders.get_active_orders(strategy.exchange, strategy.symbol) if o.is_active],
+                                  'asked': None, 'was_closed': strategy.position.is_close}
+                if hook == 'should_cancel_entry':
+                    sc = sess['scripts'][strategy.symbol]
+                    n = sc.get('cancel_after')
+                    state[key]['asked'] = n is not None and strategy.index - strategy.vars.get('entered_at', 0) >= n
+                if hook != 'after':
+                    return
+                st = state.get(key, {})
+                act = [o for o in store.orders.get_active_orders(strategy.exchange, strategy.symbol) if o.is_active]
+                if strategy.position.is_open:
+                    for via, decl in (('stop-loss', strategy.stop_loss), ('take-profit', strategy.take_profit)):
+                        rows = [] if decl is None else [list(map(float, r)) for r in decl]
+                        free = list(rows)
+                        for o in act:
+                            if o.submitted_via != via:
+                                continue
+                            m = next((r for r in free if abs(abs(r[0]) - abs(o.qty)) < 1e-9 and
+                                      (abs(r[1] - o.price) < 1e-9 or o.type == 'MARKET')), None)
+                            if m is None:
+                                problems.append(('stale-exit-order', strategy.index, {'via': via, 'order': [o.type, o.qty, o.price], 'declaration': rows}))
+                                return
+                            free.remove(m)
+                else:
+                    ro = [o for o in act if o.reduce_only]
+                    if ro:
+                        problems.append(('exit-order-after-close', strategy.index, {'orders': [[o.type, o.qty, o.price] for o in ro]}))
+                        return
+                if st.get('asked') is not None and st.get('was_closed'):
+                    before = st['active_before']
+                    still = [o for o in before if o.is_active]
+                    cancelled = [o for o in before if o.is_canceled]
+                    if st['asked'] and still:
+                        problems.append(('entry-not-cancelled', strategy.index, {'still_active': [[o.type, o.qty, o.price] for o in still]}))
+                    if not st['asked'] and cancelled:
+                        problems.append(('entry-cancelled-without-yes', strategy.index, {'cancelled': [[o.type, o.qty, o.price] for o in cancelled]}))
+            ev, tr, err = engcorr.run_real(sess, cands, extra_observer=observer)
+            res.seen((sess['candle_seed'], sess['fast']), any(e[0] == 'CANCEL' for e in tr.events))
+            res.count('engine-sessions:' + ('fast' if sess['fast'] else 'step'))
+            desc = {'session': {kk: sess[kk] for kk in ('kind', 'fee', 'leverage', 'isolated', 'fast', 'routes', 'droutes', 'n',
+                                                        'scripts', 'candle_seed', 'vol', 'gap_prob')}}
+            if problems:
+                what, idx, info = problems[0]
+                res.fail(**{'class': 'reconciliation/' + what, 'input': desc, 'observed': dict(info, strategy_index=idx)})
+            # routing of every submission against the current price at that moment
+            for e in tr.events:
+                if e[0] != 'SUBMIT':
+                    continue
+                _, k, t, sym, side, typ, qty, price, ro, cur = e
+                if cur is None or cur <= 0 or price is None:
+                    continue
+                x = abs(1 - price / cur)
+                if abs(x - thr) < 1e-10:
+                    continue
+                res.count('submit:' + typ)
+                if typ == 'MARKET':
+                    continue        # a MARKET order is priced at the current price (entries) or within the band / forced (exits)
+                if x <= thr:
+                    res.fail(**{'class': 'routing/not-market-inside-band', 'input': desc, 'observed': [typ, side, qty, price, cur]})
+                    continue
+                better = (price < cur) if side == 'buy' else (price > cur)
+                want = 'LIMIT' if better else 'STOP'
+                if typ != want:
+                    res.fail(**{'class': 'routing/wrong-type', 'input': desc, 'observed': [typ, side, qty, price, cur], 'expected': want})
 
     def route(self, side, q, p, cur):
         """real composition: strategy decision -> real broker -> recording api"""
@@ -154,6 +255,7 @@ class C10(core.Check):
 
     def oracle(self, res, boost):
         jesse_env.setup()
+        self.engine_oracle(res, boost)
         thr = fr('15/100000')
         for (q, p, cur) in self.cases(boost):
             if q == 0 or p < 0 or cur <= 0:
